@@ -152,6 +152,11 @@ def run_variant(repo, world, variant, deadline_s=None):
         except Unsupported as u:
             res["unsupported"] = str(u)
             break
+        except PyRaise as pr:
+            # the variant's own set-up (building the pre-state through real constructors) or its check raised: the
+            # function under contract was not reached on this path - out of reach, never a verdict by itself
+            res["unsupported"] = "set-up / check raised %r" % (pr.exc,)
+            break
         except RecursionError:
             res["unsupported"] = "python recursion limit in the executor"
             break
